@@ -1,8 +1,18 @@
 import LocustModel.Store.Machine
 import LocustModel.Store.Spec
 import LocustModel.Lemmas.StoreWal
+import LocustModel.Lemmas.StoreDurableRun
+import LocustModel.Lemmas.StoreDurableTotal
+import LocustModel.Lemmas.StoreExample
 /-
   C08 — acknowledged data survives a clean restart, exactly once.  Property theorems only.
+
+  Histories are arbitrary lists of `Op` (ingest / flush / restart; any length, any planner decisions, any
+  sub-partition keys, any sizes, any replay order of a request's tables).  Hypotheses (`ParamsOk`, `HistWF`):
+  compaction re-encodes losslessly (C07's theorem), `_meta_columns_*` tables start with the name set
+  {"column_name"}, a request is a map (each table / column once), at most one compaction per table and flush,
+  key lists non-empty, replay orders are permutations.
+  The proofs go through the invariant `Durable` (Lemmas/StoreDurable*.lean), by induction over the history.
 -/
 namespace LM.C08
 open LM LM.Store
@@ -26,9 +36,75 @@ theorem C08_restart_keeps_log (P : Params ν κ) (ops : List (Op ν κ)) (w w' :
     w'.mem.walSize = w.mem.walSize :=
   (walInv_recover P w w' order (walInv_run P ops w hrun) hre).2
 
-example : ∃ w, run (ν := Nat) (κ := Nat) ⟨id, 0, [.columnName]⟩
-      [.ingest [(.user 1, ⟨1, [(.user 7, [.val 5])]⟩)] 10, .restart (fun _ r => r)]
-      (initWorld ⟨id, 0, [.columnName]⟩) = .ok w ∧ walIds w.disk = [0] :=
-  ⟨_, rfl, by decide⟩
+/-- After ANY history a query of user table `n` sees exactly the rows of all returned ingestion calls, in call
+    order, every batch with the columns it was given: nothing lost, nothing twice, whatever flushes,
+    compactions and restarts happened in between. -/
+theorem C08_content (P : Params ν κ) (hP : ParamsOk P) (ops : List (Op ν κ)) (hwf : HistWF ops) (w : World ν κ)
+    (hrun : run P ops (initWorld P) = .ok w) (n : ν) :
+    content w (.user n) = .ok (acked ops (.user n)) := by
+  obtain ⟨pre, hd⟩ := durable_run P hP ops hwf w hrun
+  rw [hd.content, run_log_user_init P n ops w hrun]
+
+/-- Restart: after ANY history, opening the database on the directory it left behind — for EVERY replay order of
+    the tables inside each log segment — shows for every user table exactly the acknowledged rows (order, columns,
+    no loss, no duplicate), shows every table (catalogue tables included) exactly as before the restart, the same
+    set of tables exists, and the directory is untouched. -/
+theorem C08_restart_content (P : Params ν κ) (hP : ParamsOk P) (ops : List (Op ν κ)) (hwf : HistWF ops)
+    (w w' : World ν κ) (order : Nat → Request ν κ → Request ν κ) (hord : ∀ id r, (order id r).Perm r)
+    (hrun : run P ops (initWorld P) = .ok w) (hre : recover P w.disk w.log w.lossy order = .ok w') :
+    (∀ n, content w' (.user n) = .ok (acked ops (.user n))) ∧
+    (∀ t, content w' t = content w t) ∧
+    (∀ t, (w'.mem.tables t).isSome = (w.mem.tables t).isSome) ∧
+    w'.disk = w.disk := by
+  obtain ⟨pre, hd⟩ := durable_run P hP ops hwf w hrun
+  obtain ⟨hd', hdisk, hlog⟩ := hd.recover hP.init hord hre
+  refine ⟨fun n => ?_, fun t => ?_, fun t => ?_, hdisk⟩
+  · rw [hd'.content, hlog, run_log_user_init P n ops w hrun]
+  · rw [hd'.content, hd.content, hlog]
+  · have h1 := hd'.exists_iff t
+    have h2 := hd.exists_iff t
+    rw [hlog] at h1
+    exact Bool.eq_iff_iff.mpr (h1.trans h2.symm)
+
+/-- … and the restart itself cannot fail: after ANY history, for EVERY replay order, `recover` succeeds — the log
+    segments found are contiguous from the cursor, every share can be replayed, the lazy column-name query of a
+    restored table finds a non-empty catalogue (none of the asserts / unwraps / expects on that path can fire). -/
+theorem C08_restart_total (P : Params ν κ) (hP : ParamsOk P) (ops : List (Op ν κ)) (hwf : HistWF ops)
+    (w : World ν κ) (order : Nat → Request ν κ → Request ν κ) (hord : ∀ id r, (order id r).Perm r)
+    (hrun : run P ops (initWorld P) = .ok w) : ∃ w', recover P w.disk w.log w.lossy order = .ok w' := by
+  obtain ⟨pre, hd⟩ := durable_run P hP ops hwf w hrun
+  exact hd.recover_total hP.init hord
+
+/-- No step of a clean history can fail: for every history whose ingestion requests are maps with at least one row and
+    one column per table (`HistWF`, `HistOk`) the machine runs to completion — none of the asserts / unwraps / expects
+    of ingest_efficient, wal_flush, compact, recover and the lazy column-name query fires.  (So the theorems above are
+    not vacuous for any such history.) -/
+theorem C08_history_total (P : Params ν κ) (hP : ParamsOk P) (ops : List (Op ν κ)) (hwf : HistWF ops) (hok : HistOk ops) :
+    ∃ w, run P ops (initWorld P) = .ok w := run_total P hP ops hwf hok
+
+/-- Restarting twice is the same as restarting once (any two replay orders): the second restart finds the
+    directory the first one found and shows the same content for every table. -/
+theorem C08_restart_idempotent (P : Params ν κ) (hP : ParamsOk P) (ops : List (Op ν κ)) (hwf : HistWF ops)
+    (w w1 w2 : World ν κ) (o1 o2 : Nat → Request ν κ → Request ν κ)
+    (h1 : ∀ id r, (o1 id r).Perm r) (h2 : ∀ id r, (o2 id r).Perm r)
+    (hrun : run P ops (initWorld P) = .ok w) (hre1 : recover P w.disk w.log w.lossy o1 = .ok w1)
+    (hre2 : recover P w1.disk w1.log w1.lossy o2 = .ok w2) :
+    w2.disk = w.disk ∧ (∀ t, content w2 t = content w1 t) ∧ (∀ n, content w2 (.user n) = .ok (acked ops (.user n))) := by
+  have hrun1 : run P (ops ++ [.restart o1]) (initWorld P) = .ok w1 := run_snoc P ops _ _ w w1 hrun hre1
+  have hwf1 : HistWF (ops ++ [.restart o1]) := histWF_snoc ops _ hwf h1
+  obtain ⟨a1, a2, _, a4⟩ := C08_restart_content P hP _ hwf1 w1 w2 o2 h2 hrun1 hre2
+  obtain ⟨_, _, _, b4⟩ := C08_restart_content P hP ops hwf w w1 o1 h1 hrun hre1
+  refine ⟨by rw [a4, b4], a2, fun n => ?_⟩
+  rw [a1 n, acked_append]
+  simp [acked, userRequests, logOf]
+
+-- non-vacuity: the hypotheses hold for a concrete history with a compaction and a restart, a restart of it succeeds
+-- with a replay order that reverses every request, and the content is the acknowledged one
+example : ∃ w w', ParamsOk Ex.P0 ∧ HistWF Ex.opsA ∧ run Ex.P0 Ex.opsA (initWorld Ex.P0) = .ok w ∧
+    recover Ex.P0 w.disk w.log w.lossy Ex.revOrder = .ok w' ∧
+    content w' (.user 1) = .ok [⟨1, [(.user 7, [.val 5])]⟩, ⟨2, [(.user 8, [.val 6, .null])]⟩,
+                                 ⟨1, [(.user 7, [.val 9]), (.user 9, [.val 3])]⟩] ∧
+    walIds w.disk = [2] :=
+  ⟨_, _, Ex.P0_ok, Ex.opsA_wf, rfl, rfl, rfl, by decide⟩
 
 end LM.C08
